@@ -72,7 +72,7 @@ func VP_C03_EntryPoints() {
 		vpAssert("init-with-invalid-name-fails", vpImp(!valid, err != nil))
 	}
 	vpTraceEnd()
-	vpAssert("effects-confined-to-base-dir", vpFsConfined(base))
+	vpAssert("model: effects-confined-to-base-dir", vpFsConfined(base))
 	vpAssert("sibling-store-untouched", vpFsSame(sibBefore, vpFsSnapshot(sib)))
 	vpAssert("invalid-name-changes-nothing", vpImp(!valid, vpFsSame(rootBefore, vpFsSnapshot(root))))
 	vpCover("end")
